@@ -21,15 +21,10 @@ from .. import tracecheck
 
 
 def judge(ctx, tr):
-    accepted, consumed, total, res = tracecheck.validate(ctx, "TraceStorage", tr, heap="8g", timeout=2400)
-    if not accepted:
-        raise Infra("TraceStorage did not consume the whole log (%s of %s)" % (consumed, total))
-    mm = re.search(r'"LAW_VIOLATIONS",\s*(\{.*?\})\s*>>', res.stdout, re.S)
-    if not mm:
-        raise Infra("TraceStorage reported no verdict")
-    ctx.cov["states"] += res.distinct
-    ctx.cov["transitions"] += res.generated
-    return [(int(a), b) for a, b in re.findall(r'<<\s*(\d+),\s*"(\w+)"\s*>>', mm.group(1))]
+    viols, distinct, generated = tracecheck.law_violations(ctx, "TraceStorage", tr, chunk=300000, parallel=4, heap="4g", timeout=2400)
+    ctx.cov["states"] += distinct
+    ctx.cov["transitions"] += generated
+    return viols
 
 
 def interp(x, xs, ys):
@@ -142,11 +137,17 @@ def run(ctx):
         raise Infra("no timestep with a closed balance in the log")
     k = ks[len(ks) // 2]
     evs[k]["balresid"] = evs[k]["baltol"] + 1
+    a = k
+    while a > 0 and evs[a]["ev"] != "case":
+        a -= 1
+    z = k + 1
+    while z < len(evs) and evs[z]["ev"] != "case":
+        z += 1
     p2 = os.path.join(ctx.scratch, "storage-corrupt.ndjson")
     with open(p2, "w") as f:
-        for e in evs:
+        for e in evs[a:z]:
             f.write(json.dumps(e) + "\n")
-    if (k + 1, "balance") not in judge(ctx, p2):
+    if (k - a + 1, "balance") not in judge(ctx, p2):
         raise Infra("binding self-test failed: a perturbed balance residual was not reported by TraceStorage")
     ctx.notes["binding_selftest"] = "log with one perturbed balance residual reported at that timestep"
     ctx.assumptions += ["of a timestep's trial evaluations and sub-timesteps an evenly spaced sample is judged (quick 40, thorough 300 per timestep; every spill; all of them enter the outflow-consistency sum)",
